@@ -850,6 +850,22 @@ def projection_rule(ck, facts):
     builds = any(st[0] == "=" and st[2][0] == "agg" and str(st[2][1].get("def", "")).endswith("binding::Bindings") for b in fn.blocks for st in b["s"])
     if writes_iter or builds:
         ck.ok("R13.19", "ExecState::project rebuilds the solution stream (restriction to the projected variables)")
+        # R13.19b: the inner pattern of a sub-select must not be evaluated under the *whole* incoming binding: variables the
+        # sub-select does not project are local to it, an outer binding of the same name must not constrain them
+        sel = [t for _, t in fn.calls() if call_name_matches(t, r"^exec::ExecState::<'a, D>::select$")]
+        bparam = [i for i in range(1, fn.argc + 1) if (fn.locals[i].get("name") or "") == "binding"]
+        if len(sel) != 1 or len(bparam) != 1:
+            ck.bad("R13.19", "R13.19@ExecState::project#anchor", "anchor-missing: the evaluation of the inner pattern (%d) / the incoming binding "
+                   "(%d)" % (len(sel), len(bparam)), fn.loc)
+        else:
+            o = fn.origin(sel[0]["args"][-1])
+            if o[0] == "param" and o[1] == bparam[0] and not o[2]:
+                ck.bad("R13.19", "R13.19@ExecState::project#inner-sees-outer-binding", "project evaluates the inner pattern under the incoming binding as "
+                       "it is: a variable that the sub-select does not project is local to it, yet `GRAPH ?g { SELECT ?s { ?s :b ?g } }` "
+                       "pre-binds the sub-select's own ?g with the graph name (1 solution instead of 3)",
+                       "%s:%s" % (sel[0]["file"], sel[0]["line"]))
+            else:
+                ck.ok("R13.19", "the inner pattern of a sub-select is not evaluated under the incoming binding as it is")
     else:
         ck.bad("R13.19", "R13.19@ExecState::project#solutions-not-restricted", "project replaces the list of column names only; the solutions keep "
                "every variable of the inner pattern, and the inner pattern is evaluated under the whole outer binding: "
@@ -935,7 +951,117 @@ def base_iri_rule(ck, facts):
                "by the parser; without a BASE a relative argument is not an error either", fn.loc)
 
 
+def in_disjunction_rule(ck, facts):
+    """R13.22: `lhs IN (e1, e2, ..)` is `(lhs = e1) || (lhs = e2) || ..` with the three-valued `||` (SPARQL 1.1, 17.4.1.9): an element
+    whose comparison is an error must not end the search, a later equal element makes the whole expression true.  The per-element
+    results (true / false / error) therefore cannot be handed to a short-circuiting search whose predicate makes no decision of its
+    own (`find(|r| r != &Some(false))`: the first error wins)."""
+    fn = find_one(ck, facts, "R13.22", r"expression::ArcExpression::eval$", "ArcExpression::eval")
+    if fn is None:
+        return
+    sw = [(bi, b["t"]) for bi, b in enumerate(fn.blocks) if b["t"]["t"] == "switch"
+          and (b["t"].get("variants") or {}).get("enum", "").endswith("expression::ArcExpression")]
+    if len(sw) != 1:
+        ck.bad("R13.22", "R13.22@eval#switch", "expected one match on ArcExpression in eval (found %d)" % len(sw), fn.loc)
+        return
+    names = sw[0][1]["variants"]["names"]
+    arm = {names[v]: tb for v, tb in sw[0][1]["vals"] if v in names}
+    if "In" not in arm:
+        ck.bad("R13.22", "R13.22@eval#In-arm", "no arm for In in eval", fn.loc)
+        return
+    others = set()
+    for n2, tb in arm.items():
+        if n2 != "In":
+            others |= fn.reachable(tb)
+    region = fn.reachable(arm["In"]) - others
+    bad = None
+    for bi, t in fn.calls():
+        if bi not in region or not call_name_matches(t, r"iter::Iterator::(find|find_map|position|try_fold|try_for_each|skip_while|take_while)$"):
+            continue
+        if len(t["args"]) < 2:
+            continue
+        o = fn.origin(t["args"][-1])
+        cf = facts.fns.get(o[1]["def"]) if o[0] == "agg" and o[1].get("k") == "closure" else None
+        if cf is None or not any(b["t"]["t"] == "switch" for b in cf.blocks if not b.get("cleanup")):
+            bad = t
+    if bad:
+        ck.bad("R13.22", "R13.22@eval#In:first-error-ends-disjunction", "the In arm hands the per-element comparisons to %s with a predicate that "
+               "makes no decision of its own: the first element whose comparison is not false ends the search, so an error met before "
+               "the matching element makes the whole IN an error: `2 IN (1/0, 2)` and `2 IN (<iri>, \"str\", 2.0)` (both true in SPARQL 1.1 "
+               "17.4.1.9) are errors, FILTER(?o IN (1, \"str\")) keeps only the rows equal to the first element that is comparable"
+               % bad["f"]["name"].split("::")[-1], "%s:%s" % (bad["file"], bad["line"]))
+    else:
+        ck.ok("R13.22", "In: no short-circuiting search over the per-element results with an undiscriminating predicate")
+
+
+def triple_function_rule(ck, facts):
+    """R13.23: TRIPLE(s, p, o) (and the `<< .. >>` constants the parser turns into it) accepts in subject position every kind the
+    pattern matcher accepts there: IRIs, blank nodes and quoted triples (RDF-star)."""
+    fns = facts.find_fns(crate="sophia_sparql", name_re=r"^function::triple$")
+    if len(fns) != 1:
+        ck.bad("R13.23", "R13.23@function::triple#anchor", "anchor-missing (%d)" % len(fns))
+        return
+    fn = fns[0]
+    from mirutil import bool_switch, blocks_with_agg
+    nones = {bi for bi, si, dest, ops in blocks_with_agg(fn, "core::option::Option", "None") if dest == [0]}
+    somes = {bi for bi, si, dest, ops in blocks_with_agg(fn, "core::option::Option", "Some") if dest == [0]}
+    accepted = {}
+    for bi, b in enumerate(fn.blocks):
+        bs = bool_switch(fn, bi)
+        if not bs or bs[0][0] != "call":
+            continue
+        t = bs[0][1]
+        m = re.search(r"Term::(is_iri|is_blank_node|is_triple|is_literal|is_variable)$", t["f"].get("name") or "")
+        if not m or not t["args"]:
+            continue
+        who = [x for x in leaf_calls_params(fn, t["args"][0])]
+        if "param:1" not in who:
+            continue
+        reach = fn.reachable(bs[1], avoid=nones)
+        accepted[m.group(1)] = bool(reach & somes)
+    want = {"is_iri", "is_blank_node", "is_triple"}
+    if not somes or not nones:
+        ck.bad("R13.23", "R13.23@function::triple#shape", "function::triple has no Some / None construction to decide", fn.loc)
+    elif want <= {k for k, v in accepted.items() if v}:
+        ck.ok("R13.23", "TRIPLE(): the subject test lets IRIs, blank nodes and quoted triples through")
+    else:
+        ck.bad("R13.23", "R13.23@function::triple#subject-kinds", "TRIPLE() accepts only %s as its subject (missing: %s): `<< << :a :b :c >> :p :o >>` "
+               "in an expression is an error although the same triple pattern matches, TRIPLE(?s, :p, ?o) with ?s bound to a quoted "
+               "triple yields no row" % (sorted(k for k, v in accepted.items() if v), sorted(want - {k for k, v in accepted.items() if v})), fn.loc)
+
+
+def leaf_calls_params(fn, operand):
+    from mirutil import leaf_calls
+    return [n.split(".")[0] for n in leaf_calls(fn, operand) if n.startswith("param:")]
+
+
+def ignored_argument_rule(ck, facts):
+    """R13.24: no function of the library ignores an argument it is given: a result that does not depend on an argument cannot be
+    the SPARQL function of that argument (BNODE(str): the same string must give the same blank node within a solution)."""
+    from mirutil import uses_of_local
+    import core
+    for name, expect in (("pos_ignores_argument", True), ("neg_uses_argument", False)):
+        f = core.fixture_fn(name)
+        ck.control("R13.24", name, any(not [u for u in uses_of_local(f, i) if u[1] != "drop"] for i in range(1, f.argc + 1)), expect)
+    n = 0
+    for g in sorted(facts.fns.values(), key=lambda x: x.name):
+        if g.crate != "sophia_sparql" or not re.match(r"function::\w+$", g.name) or g.kind != "Fn" or g.argc == 0:
+            continue
+        n += 1
+        unused = [i for i in range(1, g.argc + 1) if not [u for u in uses_of_local(g, i) if u[1] != "drop"]]
+        if unused:
+            ck.bad("R13.24", "R13.24@%s#ignores-argument" % g.name, "%s never reads its argument %s: BNODE(\"a\") returns a fresh blank node at every "
+                   "call, so sameTerm(BNODE(\"a\"), BNODE(\"a\")) is false within one solution (SPARQL 1.1 17.4.2.9 requires the same node)"
+                   % (g.name, ", ".join("#%d (%s)" % (i, g.locals[i].get("name") or "?") for i in unused)), g.loc)
+    ck.floor("R13.24", "library functions with arguments", n, 33)
+    if not any(f_.rule == "R13.24" for f_ in ck.findings):
+        ck.ok("R13.24", "every function of the library reads each of its arguments (%d functions)" % n)
+
+
 def run(ck, facts, tier):
+    in_disjunction_rule(ck, facts)
+    triple_function_rule(ck, facts)
+    ignored_argument_rule(ck, facts)
     facts.require_crates(["sophia_sparql"])
     sibling_arms_rule(ck, facts)
     rounding_arms_rule(ck, facts)
